@@ -384,7 +384,13 @@ var (
 	reCoverage = regexp.MustCompile(`^<(\w+) line \d+, col \d+ to line \d+, col \d+ of module (\w+)>: (\d+):(\d+)`)
 )
 
-func specDir() string { return filepath.Join(verifDir, "spec") }
+// specDir is /verif/spec; FOXCHECK_SPEC_DIR (development aid) points the harness at a scratch copy of the specification.
+func specDir() string {
+	if d := os.Getenv("FOXCHECK_SPEC_DIR"); d != "" {
+		return d
+	}
+	return filepath.Join(verifDir, "spec")
+}
 
 // runTLC copies the specification into a private working directory, adds generated modules, and runs TLC.
 func (r *Run) runTLC(o tlcOpts) tlcResult {
